@@ -36,6 +36,15 @@ class AbsRaise(Exception):
         self.node = node
 
 
+class IndexOut(Unsupported):
+    """A concrete container of the abstract state was indexed outside its bounds."""
+
+    def __init__(self, idx, size, node):
+        super().__init__(f"index {idx} outside a container of size {size}", node)
+        self.idx = idx
+        self.size = size
+
+
 class Sym:
     """Opaque symbol, optionally indexed: Sym('B', (3,))."""
     __slots__ = ("name", "idx")
@@ -302,8 +311,47 @@ class Evaluator:
         self.trace: List[ast.AST] = []      # statements executed (for coverage / reporting)
         # when set, `name = <unsupported expr>` binds an opaque Sym(name) and records the defining expression
         self.opaque_ok = False
+        self.sym_compare = None             # callable(left Lin, op, right Lin, node) -> bool for symbolic comparisons
+        self.strict_index = False           # negative indices into concrete lists are out-of-bounds (array semantics)
         self.attr_fallback = None           # callable(dotted) -> value | None for unknown dotted attribute reads
         self.opaque: Dict[str, ast.AST] = {}
+
+    def call_user(self, fnode: ast.FunctionDef, args: List[Any], kwargs: Optional[Dict[str, Any]] = None,
+                  skip_self: bool = False):
+        """Abstractly evaluate a (package) function body on abstract arguments, sharing hooks and containers."""
+        a = fnode.args
+        names = [x.arg for x in list(a.posonlyargs) + list(a.args)]
+        if skip_self and names:
+            names = names[1:]
+        env: Dict[str, Any] = {}
+        defaults = list(a.defaults)
+        nd = len(defaults)
+        for i, nm in enumerate(names):
+            if i < len(args):
+                env[nm] = args[i]
+            elif kwargs and nm in kwargs:
+                env[nm] = kwargs[nm]
+            else:
+                j = i - (len(names) - nd)
+                if 0 <= j < nd:
+                    env[nm] = self.ev(defaults[j])
+                else:
+                    raise Unsupported(f"missing argument {nm} in call of {fnode.name}", fnode)
+        child = Evaluator(env, self.funcs, self.max_steps)
+        child.sym_compare = self.sym_compare
+        child.strict_index = self.strict_index
+        child.attr_fallback = self.attr_fallback
+        child.opaque_ok = self.opaque_ok
+        body = list(fnode.body)
+        if body and isinstance(body[0], ast.Expr) and isinstance(body[0].value, ast.Constant) \
+                and isinstance(body[0].value.value, str):
+            body = body[1:]
+        try:
+            ret = child.run(body)
+        finally:
+            self.steps += child.steps
+            self.effects.extend(child.effects)
+        return ret
 
     # ------------------------------------------------------------------ expressions
     def ev(self, node: ast.AST):
@@ -437,6 +485,14 @@ class Evaluator:
         res = True
         for op, c in zip(n.ops, n.comparators):
             right = self.ev(c)
+            if self.sym_compare is not None and (isinstance(left, (Sym, Lin)) or isinstance(right, (Sym, Lin))):
+                d = Lin.of(left) - Lin.of(right)
+                if not d.is_const():
+                    r = self.sym_compare(Lin.of(left), op, Lin.of(right), n)
+                    if not r:
+                        return False
+                    left = right
+                    continue
             r = _compare(op, left, right, n)
             if isinstance(r, Vec):
                 if len(n.ops) != 1:
@@ -463,12 +519,20 @@ class Evaluator:
         if isinstance(base, Sym):
             return base[idx]
         if isinstance(base, Vec):
+            if isinstance(idx, Vec):
+                return Vec([v for v, m in zip(base.vals, idx.vals) if m])
+            if isinstance(idx, int) and not isinstance(idx, bool):
+                if not 0 <= idx < len(base.vals):
+                    raise IndexOut(idx, len(base.vals), n)
+                return base.vals[idx]
             raise Unsupported("subscript of vector", n)
         if isinstance(base, (list, tuple, str)):
-            if not isinstance(idx, int):
+            if not isinstance(idx, int) or isinstance(idx, bool):
                 raise Unsupported("non-int index", n)
             if not -len(base) <= idx < len(base):
-                raise Unsupported(f"index {idx} out of range", n)
+                raise IndexOut(idx, len(base), n)
+            if idx < 0 and self.strict_index:
+                raise IndexOut(idx, len(base), n)
             return base[idx]
         if isinstance(base, dict):
             if idx not in base:
@@ -578,9 +642,45 @@ class Evaluator:
             for el, v in zip(target.elts, value):
                 self.store(el, "=", v, stmt)
             return
+        if isinstance(target, ast.Subscript) and not isinstance(target.slice, ast.Slice):
+            try:
+                base = self.ev(target.value)
+            except Unsupported:
+                base = None
+            if isinstance(base, (list, Vec, dict)):
+                self._concrete_store(base, self.ev(target.slice), op, value, stmt)
+                return
         # alias resolution: a name bound to a Sym is a *view* of the symbol (cost_elem1_elem2 = matrix[e1][e2])
         key = self._alias_key(target)
         self.effects.append(Effect(key, op, value, stmt))
+
+    def _concrete_store(self, base, idx, op, value, stmt):
+        binop = {"+=": ast.Add(), "-=": ast.Sub(), "*=": ast.Mult()}.get(op)
+        if isinstance(base, dict):
+            if op == "=":
+                base[idx] = value
+            else:
+                if idx not in base:
+                    raise Unsupported("augmented store to missing key", stmt)
+                base[idx] = _arith(binop, base[idx], value, stmt)
+            return
+        seq = base.vals if isinstance(base, Vec) else base
+        if isinstance(idx, Vec):
+            if not isinstance(base, Vec) or len(idx.vals) != len(seq):
+                raise Unsupported("mask store", stmt)
+            for i, m in enumerate(idx.vals):
+                if m is True or m is False:
+                    if m:
+                        seq[i] = value if op == "=" else _arith(binop, seq[i], value, stmt)
+                else:
+                    raise Unsupported("non-boolean mask", stmt)
+            return
+        if isinstance(idx, bool) or not isinstance(idx, int):
+            raise Unsupported(f"store index {idx!r}", stmt)
+        if not 0 <= idx < len(seq):
+            # numpy / python would raise (or wrap for negatives): rules must see this
+            raise IndexOut(idx, len(seq), stmt)
+        seq[idx] = value if op == "=" else _arith(binop, seq[idx], value, stmt)
 
     def _alias_key(self, t: ast.AST):
         if isinstance(t, ast.Name):
